@@ -75,6 +75,88 @@ def find_mode_switch(gen: Function) -> Tuple[ast.If, List[ast.stmt], List[ast.st
     return sw, atoms, ex  # type: ignore[return-value]
 
 
+def _root_name(e: ast.AST) -> Optional[str]:
+    """out_dir for `str(out_dir)`, `out_dir`, `Path(out_dir)`, `out_dir.resolve()` ..."""
+    while True:
+        if isinstance(e, ast.Call) and dotted(e.func) in ("str", "Path", "os.fspath") and len(e.args) == 1:
+            e = e.args[0]
+        elif isinstance(e, ast.Call) and isinstance(e.func, ast.Attribute) and e.func.attr in ("resolve", "absolute", "as_posix") and not e.args:
+            e = e.func.value
+        else:
+            break
+    return e.id if isinstance(e, ast.Name) else None
+
+
+def diff_coverage(repo: Repo, rep, rule: str, gen: Function, diff_body: List[ast.stmt]) -> None:
+    """Compare-only generation must compare every directory direct generation writes: the client package always, the core package
+    whenever it is not contained in the client package.  The guard of the core comparison is evaluated (on its AST, by the path
+    algebra of C11) over symbolic project layouts, including cores whose path *string* merely starts with the client's."""
+    from rules.c11 import PathAlgebra, _Unsupported, layouts
+
+    calls = [c for st in diff_body for c in ast.walk(st) if isinstance(c, ast.Call) and dotted(c.func) == "self._show_diffs" and c.args]
+    rep.count(f"{rule}:show_diffs_calls", len(calls))
+    if not calls:
+        raise AnalysisError("anchor vanished: no self._show_diffs(...) call in the compare-only branch")
+    # which call compares what: the directory whose ExceptionsEmitter/CoreEmitter receives it is the core
+    roots = [(_root_name(c.args[0]), c) for c in calls]
+    if any(r is None for r, _ in roots):
+        raise AnalysisError(f"{rule}: cannot name the directory compared by `{norm(calls[0])}`")
+    names = [r for r, _ in roots]
+    core_names = [r for r in names if "core" in (r or "")]
+    client_names = [r for r in names if r not in core_names]
+    sub = f"{gen.module.relpath}:generate (compare-only branch) directories compared"
+    if not client_names or not core_names:
+        rep.violation(rule, sub, f"{gen.fq}|diff-coverage|{sorted(set(names))}",
+                      f"compare-only generation compares only {sorted(set(names))}: " + ("the core package" if not core_names else "the client package")
+                      + " is never compared, a stale or edited file there goes unreported", gen.loc(calls[0]))
+        return
+    client_var, core_var = client_names[0], core_names[0]
+
+    def guard_of(call: ast.Call) -> List[Tuple[ast.AST, bool]]:
+        out: List[Tuple[ast.AST, bool]] = []
+        n: Optional[ast.AST] = call
+        while n is not None and n not in diff_body:
+            p = parent(n)
+            if isinstance(p, ast.If) and n is not p.test:
+                out.append((p.test, any(n is b for b in p.body)))
+            elif isinstance(p, (ast.For, ast.While, ast.Try)) and not isinstance(n, ast.expr):
+                if isinstance(p, ast.Try) and n in p.body + p.finalbody:
+                    pass
+                else:
+                    raise AnalysisError(f"{rule}: `{norm(call)[:60]}` sits in a {type(p).__name__} - not modelled")
+            n = p
+        return out
+
+    for var, c in roots:
+        is_core = var == core_var
+        gs = guard_of(c)
+        subc = f"{gen.module.relpath}:generate (compare-only branch) comparison of `{var}`"
+        if not gs:
+            rep.ok(rule, subc, "compared unconditionally", gen.loc(c))
+            continue
+        bad = None
+        n_eval = 0
+        for lay in layouts():
+            client_dir = lay["root"] + tuple(lay["client_pkg"].split("."))
+            env = {client_var: client_dir, core_var: lay["core_dir"], "project_root": lay["root"], "self.project_root": lay["root"]}
+            try:
+                val = all(bool(PathAlgebra(env).ev(t)) == pol for t, pol in gs)
+            except _Unsupported as e:
+                raise AnalysisError(f"{rule}: the guard of `{norm(c)[:60]}` uses a construct the path algebra does not model: {e}")
+            n_eval += 1
+            must = (not is_core) or lay["kind"] != "embedded"
+            if must and not val and bad is None:
+                bad = lay
+        if bad is None:
+            rep.ok(rule, subc, f"guard `{' and '.join(('' if p else 'not ') + norm(t) for t, p in gs)}` holds in all {n_eval} layouts where `{var}` "
+                   "is not already covered by the client comparison", gen.loc(c))
+        else:
+            rep.violation(rule, subc, f"{gen.fq}|diff-guard|{var}|{bad['kind']}",
+                          f"with client package {bad['client_pkg']} and core at {'/'.join(bad['core_dir'])} ({bad['kind']}) the guard "
+                          f"`{' and '.join(('' if p else 'not ') + norm(t) for t, p in gs)}` is false: the directory is not compared, so an "
+                          "out-of-date or edited file there is reported as 'no differences'", gen.loc(c))
+
+
 def run(repo: Repo, rep: Report, tier: str) -> None:
     gen = repo.func(GEN)
     sw, atoms, ex_atoms = find_mode_switch(gen)  # type: ignore[misc]
@@ -177,19 +259,26 @@ def run(repo: Repo, rep: Report, tier: str) -> None:
     dom = cfg.dominators()
     raises = [n for n in cfg.nodes if isinstance(n.ast, ast.Raise) and not n.copy and _inside(n.ast, diff_body) and "GenerationError" in norm(n.ast)]
     ok_raise = False
+    assigned = {x.targets[0].id for st in diff_body for x in ast.walk(st) if isinstance(x, ast.Assign) and isinstance(x.targets[0], ast.Name)
+                and isinstance(x.value, ast.Call) and dotted(x.value.func) == "self._show_diffs"}
     for r in raises:
         gs = [cfg.nodes[d] for d in dom[r.id] if cfg.nodes[d].kind == "test"]
-        if any("has_diff" in norm(g.ast) for g in gs):
-            t = [g for g in gs if "has_diff" in norm(g.ast)][0]
+        for t in gs:
             names = {x.id for x in ast.walk(t.ast) if isinstance(x, ast.Name)}
-            assigned = {x.targets[0].id for st in diff_body for x in ast.walk(st) if isinstance(x, ast.Assign) and isinstance(x.targets[0], ast.Name)
-                        and isinstance(x.value, ast.Call) and dotted(x.value.func) == "self._show_diffs"}
-            if assigned and assigned <= names and isinstance(t.ast, ast.BoolOp) and isinstance(t.ast.op, ast.Or):
+            if not (names & assigned):
+                continue
+            # the test must be true as soon as *any* diff result is true: a disjunction (or a single name) over all results
+            disj = (isinstance(t.ast, ast.BoolOp) and isinstance(t.ast.op, ast.Or) and all(isinstance(v, ast.Name) for v in t.ast.values)) or (
+                isinstance(t.ast, ast.Name) and len(assigned) == 1) or (
+                isinstance(t.ast, ast.Call) and dotted(t.ast.func) == "any")
+            if assigned and assigned <= names and disj and not ok_raise:
                 ok_raise = True
                 rep.ok("R10.5", f"{gen.module.relpath}:generate differences raise", f"`{norm(t.ast)}` covers every _show_diffs result and dominates `raise GenerationError`", gen.loc(r.ast))
     if not ok_raise:
         rep.violation("R10.5", f"{gen.module.relpath}:generate differences raise", f"{gen.fq}|diff-raise",
                       "a difference reported by _show_diffs does not lead to `raise GenerationError` (some result is ignored)", gen.loc(sw))
+
+    diff_coverage(repo, rep, "R10.6", gen, diff_body)
 
     # ---------------------------------------------------------------- R10.2 / R10.3 sinks over the generation path
     live = repo.import_closure(["generator.client_generator"])
